@@ -42,8 +42,14 @@ TraceInit == /\ tid \in 1..Len(Traces)
 
 \* the piece `ev` draws edge e = EdgeOf(first, last) of the transformed object
 \* model "affine": an affine chart of the projective plane (DrawProj), every edge is straight
+\* shrink > 0: a small polygon (DrawGeom, DgShrink...): the object is verts shrunk by Lox(1, shrink); only the kind of
+\* the piece is specified (the circle of the edge is not a rational of 32-bit size)
 PieceOK(ev) ==
-  IF Tr.model = "affine" THEN ev.kind = "straight" ELSE
+  IF Tr.model = "affine" THEN ev.kind = "straight"
+  ELSE IF Tr.shrink > 0 THEN
+    LET e == EdgeOf(ev.first, ev.last)
+    IN ev.kind = DgShrinkPieceKind(Tr.model, Tr.verts[e], Tr.verts[Nxt(e)], Tr.shrink)
+  ELSE
   LET e == EdgeOf(ev.first, ev.last)
       x == TrV(e)
       y == TrV(Nxt(e))
